@@ -921,7 +921,7 @@ def c08(run):
     n = run.n(150, 4000)
     run.rule = ('programs interleaving say/listen (with and without destination, into subscripts, inside loops and functions) with other '
                 'statements x inputs (empty, no final newline, blank lines, CRLF, non-ASCII) x a writer fault at EVERY byte position up to '
-                'the output length and a reader fault at every line request; non-trivial = the fault-free run prints >= 2 lines and reads >= 1; '
+                'the output length and a reader fault at every line request, sampled positions x 7 io::ErrorKinds; non-trivial = the fault-free run prints >= 2 lines and reads >= 1; '
                 'distinct by (program, input, fault)')
     inputs = ['', 'one\ntwo\nthree\n', 'no newline at end', '\n\nblank lines\n\n', 'crlf\r\nline\r\n', 'héllo Ω\n日本\n', 'a\n' * 12]
     total_faults = 0
@@ -943,6 +943,22 @@ def c08(run):
         kinds = [('w', k) for k in range(L + 2)] + [('r', j) for j in range(nlines + 1)]
         m, im = run.tie(reqs, proj=proj_run, functional=True, desc=lambda q: {'program': src, 'stdin': stdin, 'fault': kinds[q]})
         total_faults += len(reqs)
+        # the KIND of the injected error must not matter (WouldBlock, BrokenPipe, TimedOut ... are failures like any other;
+        # Interrupted alone means "retry" by the contract of Read/Write and is not injected): a few positions x every kind
+        pick = rng.sample(range(len(reqs)), min(len(reqs), 3))
+        kreqs, kref = [], []
+        for q in pick:
+            for ek in 'wbtpcud':
+                kreqs.append('runk %s %s' % (ek, reqs[q][4:]))
+                kref.append(q)
+        kans = common.impl(kreqs)
+        for rq, q, a in zip(kreqs, kref, kans):
+            if a == 'skipped':
+                continue
+            run.case(('kind', rq), True, fault='kind', outcome=first_word(a))
+            if im[q] is not None and (first_word(a) in ('crash', 'hang') or proj_run(a) != proj_run(im[q])):
+                run.fail({'program': src, 'stdin': stdin, 'fault': kinds[q], 'error_kind': rq.split(' ')[1], 'with_kind_Other': im[q][:200], 'answer': a[:200]},
+                         'the io::ErrorKind of an I/O fault changes what the interpreter does (a failing stream must stop the program whatever the kind)')
         for (kind, k), r in zip(kinds, im):
             if r is None:
                 continue
